@@ -95,5 +95,5 @@ def run_job(job, name="job"):
     shutil.rmtree(d, ignore_errors=True)
     return r
 
-def replay(tlc_out, drift_out=None, max_viol=50):
+def replay(tlc_out, drift_out=None, max_viol=2000):
     return run_job(dict(mode="replay", inputs_file=tlc_out, max_viol=max_viol, extra=dict(drift_out=drift_out or "")), "replay")
